@@ -381,6 +381,25 @@ def run(ctx) -> None:
         and isinstance(r.elts[1], ast.Name) and r.elts[1].id == "replica_id"
     ctx.ob("C03.R2-naming-agreement", prods[0], ok, "the reference suffix is replica_id" if ok else
            "compile_reference does not append replica_id to the producer", construct=short(prods[0]))
+    # the printer prints the parts it is given: replication finds the references of a component by PARSING them but rewrites them as
+    # text, searching for the spelling that compile_reference() builds from the parsed parts - a part that the printer normalises
+    # (os.path.normpath on the file, a case change ..) gives a key that is not in the component's text, and the reference keeps naming
+    # the unreplicated producer.  Only the producer may be rebound, by the two documented formats (replica suffix, stage prefix)
+    part_params = [a.arg for a in cref.args.args if a.arg in ("producer", "filename", "method")]
+    for st in source.walk_own(cref):
+        if isinstance(st, (ast.Assign, ast.AugAssign)):
+            tg = st.targets if isinstance(st, ast.Assign) else [st.target]
+            for t in tg:
+                if isinstance(t, ast.Name) and t.id in part_params:
+                    v = st.value
+                    documented = t.id == "producer" and isinstance(v, ast.BinOp) and isinstance(v.op, ast.Mod) and isinstance(v.left, ast.Constant) \
+                        and v.left.value in ("%s%d", "stage%d.%s")
+                    ctx.ob("C03.R2-naming-agreement", st, documented,
+                           "compile_reference rebinds the producer with the documented format %r" % v.left.value if documented else
+                           "compile_reference rewrites the %s part before printing (%s): the text that replication searches for is no longer the "
+                           "text of the component ('Gen/outputs/:ref' vs 'Gen/outputs:ref'), the consumer is replicated but every copy keeps its "
+                           "reference to the unreplicated producer" % (t.id, short(st, 60)),
+                           construct="compile_reference prints %s as given" % t.id)
     # variables['replica'] = replica
     vr = [n for n in source.walk_own(rep) if isinstance(n, ast.Assign) and any(
         isinstance(t, ast.Subscript) and isinstance(t.slice, ast.Constant) and t.slice.value == "replica" for t in n.targets)]
